@@ -1,0 +1,50 @@
+// Copyright 2020-2025 Buf Technologies, Inc.
+//
+// Licensed under the Apache License, Version 2.0 (the "License");
+// you may not use this file except in compliance with the License.
+// You may obtain a copy of the License at
+//
+//      http://www.apache.org/licenses/LICENSE-2.0
+//
+// Unless required by applicable law or agreed to in writing, software
+// distributed under the License is distributed on an "AS IS" BASIS,
+// WITHOUT WARRANTIES OR CONDITIONS OF ANY KIND, either express or implied.
+// See the License for the specific language governing permissions and
+// limitations under the License.
+
+//go:build verif
+
+package bufmodule
+
+// Contracts for the gocv verifier: file enumeration of a ModuleReadBucket (C01, C02). Comment-only.
+//
+//@ trusted pure interface FileInfo
+//
+// The walk of a module read bucket yields non-nil file infos in an UNSPECIFIED order (it follows the storage
+// walk order of the underlying buckets); it may fail.
+//@ trusted iterator func (ModuleReadBucket) WalkFileInfos(ctx, f, options) (err)
+//@   yields via f (fileInfo FileInfo)
+//@   where fileInfo != nil
+//@   mayfail
+//
+// GetFileInfos / GetTargetFileInfos: whatever order the walk yields the files in, the result is sorted by path.
+// This is what makes the compile order, and hence the image file order, independent of the storage walk order.
+//@ func GetTargetFileInfos(ctx, moduleReadBucket) (r, err)
+//@   property C01 C02
+//@   ensures sorted-by-path {C02}: err == nil ==> (forall a int, b int :: 0 <= a && a < b && b < len(r) ==> r[a].Path() <= r[b].Path())
+//@   ensures walked-files {C01}: err == nil ==> (forall k int :: 0 <= k && k < len(r) ==> r[k] != nil)
+//@   ensures walk-failure-reported {C01}: err != nil ==> len(r) == 0
+//@   closure 0 invariant forall k int :: 0 <= k && k < len(fileInfos) ==> fileInfos[k] != nil
+//@   canary ensures err != nil
+//
+//@ func GetFileInfos(ctx, moduleReadBucket) (r, err)
+//@   property C01 C02
+//@   ensures sorted-by-path {C02}: err == nil ==> (forall a int, b int :: 0 <= a && a < b && b < len(r) ==> r[a].Path() <= r[b].Path())
+//@   ensures walked-files {C01}: err == nil ==> (forall k int :: 0 <= k && k < len(r) ==> r[k] != nil)
+//@   ensures walk-failure-reported {C01}: err != nil ==> len(r) == 0
+//@   closure 0 invariant forall k int :: 0 <= k && k < len(fileInfos) ==> fileInfos[k] != nil
+//@   canary ensures err != nil
+//
+//@ func WalkFileInfosWithOnlyTargetFiles() (r)
+//@   property C01 C02
+//@   ensures r != nil
